@@ -58,6 +58,9 @@ impl WakerQueue {
         waker
             .wake()
             .unwrap_or_else(|e| panic!("can not wake up Accept Poll: {}", e));
+
+        #[cfg(actix_net_verif)]
+        crate::verif::point(crate::verif::Point::AfterWake);
     }
 
     /// Get a MutexGuard of the waker queue.
